@@ -794,14 +794,17 @@ def analyse_sessions(spec, hists, open_known, tag):
                 if j:
                     cls = f[2] if len(f) > 2 else '-'
                     cls = j[2] if len(j) > 2 and j[2] else cls
+                    keep = False
                     if cls != '-' and cls in spec.get('foreign_classes', ()):
-                        pass      # a finding class that belongs to (and is reported under) another property
+                        keep = True      # a finding class that belongs to (and is reported under) another property
                     elif cls != '-' and cls in open_known:
                         known_hits.add(cls)
                         known_fail_count += 1
+                        keep = True
                     else:
                         new_fail.append(dict(history=h, at=i, impl=x, spec=j[0], why=j[1] + (f' (class {cls} is not an open known finding)' if cls != '-' else ''), cls=cls))
-                    judging = False   # the reference and the implementation may have diverged
+                    if not (keep and spec.get('continue_after_known') and req.split(' ')[0] in spec.get('pure_ops', ())):
+                        judging = False   # the reference and the implementation may have diverged
             prev = x
         if hi % max(1, len(hists) // 4) == 0 and len(samples) < 6 and len(h) > 1:
             samples.append(dict(history=[pretty_req(r) for r in h[:12]], last_impl=a[min(len(a), 12) - 1][:300]))
